@@ -34,7 +34,7 @@ def validate(ctx, trace_path, verdict, tag):
 
 def nontrivial(ev):
     # a run is non-trivial when at least one firing carried at least one item
-    return any(f["items"] for e in ev if e["ev"] == "add" for f in e["fired"])
+    return any(f["items"] for e in ev if e["ev"] in ("add", "flush") for f in e["fired"])
 
 
 def run(ctx):
@@ -67,7 +67,8 @@ def run(ctx):
     for n, b in enumerate(behaviours):
         cases.append({"w": b["w"], "s": b["s"], "nonempty": b["nonempty"], "kind": kinds[n % 3],
                       "items": [[i + 1, t] for i, t in enumerate(b["stream"])], "hasmodel": True,
-                      "model": [{"ts": f["ts"], "items": f["items"]} for f in b["fired"]]})
+                      "model": [{"ts": f["ts"], "items": f["items"]} for f in b["fired"]],
+                      "mflush": {"items": b["flush"]["items"]}})
     vlib.write_ndjson(os.path.join(wd, "l2cases.ndjson"), cases)
     vlib.kverif(["c09", "--cases", os.path.join(wd, "l2cases.ndjson"), "--out", os.path.join(wd, "l2.ndjson")])
     runs2, failed2, drift2, res2 = validate(ctx, os.path.join(wd, "l2.ndjson"), verdict, "l2")
